@@ -9,7 +9,9 @@ package sched
 
 import (
 	"fmt"
+	"runtime"
 	"runtime/debug"
+	"sync/atomic"
 )
 
 type crashSentinel struct{}
@@ -22,7 +24,30 @@ type thread struct {
 	op     string // description of the pending step
 	steps  int
 	fault  bool // the pending step can be answered with a fault (StepF)
+	gid    uint64 // id of the goroutine that IS this thread (steps of other goroutines are not scheduled)
 }
+
+// goid parses the current goroutine's id from its stack header ("goroutine 123 [running]:").
+func goid() uint64 {
+	var buf [40]byte
+	n := runtime.Stack(buf[:], false)
+	var id uint64
+	for _, c := range buf[len("goroutine "):n] {
+		if c < '0' || c > '9' {
+			break
+		}
+		id = id*10 + uint64(c-'0')
+	}
+	return id
+}
+
+// foreign counts file-system steps performed by goroutines that the code under test started itself. They are not
+// threads of the scheduler: their steps run unscheduled (pass straight through), and a harness that sees a non-zero
+// count must report that its exploration does not cover that concurrency.
+var foreign atomic.Int64
+
+// ForeignSteps returns (and keeps) the number of unscheduled steps by goroutines spawned inside the code under test.
+func ForeignSteps() int64 { return foreign.Load() }
 
 // Point is one scheduling point of an execution.
 type Point struct {
@@ -104,6 +129,10 @@ func step(op string, faultable bool) bool {
 		return false
 	}
 	t := s.cur
+	if t.gid != goid() {
+		foreign.Add(1) // a goroutine of the code's own making: not ours to schedule
+		return false
+	}
 	if t.dead {
 		panic(crashSentinel{})
 	}
@@ -157,6 +186,7 @@ func Run(prefix []int, cfg Config, bodies ...func()) *Exec {
 		t := &thread{id: i, resume: make(chan int), op: "start"}
 		s.threads = append(s.threads, t)
 		go func(t *thread, body func()) {
+			t.gid = goid()
 			if <-t.resume == 0 {
 				t.dead = true
 				t.done = true
